@@ -31,4 +31,21 @@ S_hb2 == {H_lim2, H_mix, H_unl_noi}
 S_hb3 == {H_tgen, H_tgen2, H_tsink, H_tunl, H_ttwo}
 S_hb4 == {H_ser3, H_lim2i, H_tmid}
 S_smoke == {H_ser2}
+\* singletons (scratch runs, mutation table)
+S1_ser2 == {H_ser2}
+S1_ser3 == {H_ser3}
+S1_ser_p1 == {H_ser_p1}
+S1_ser_p0 == {H_ser_p0}
+S1_ser_noi == {H_ser_noi}
+S1_lim2 == {H_lim2}
+S1_lim2i == {H_lim2i}
+S1_mix == {H_mix}
+S1_unl_noi == {H_unl_noi}
+S1_tgen == {H_tgen}
+S1_tgen2 == {H_tgen2}
+S1_tsink == {H_tsink}
+S1_tmid == {H_tmid}
+S1_tunl == {H_tunl}
+S1_ttwo == {H_ttwo}
+S1_s1 == {H_s1}
 =============================================================================
